@@ -24,3 +24,52 @@ CLAIMED = {
         'note': TB + 'The contract schema is instantiated mechanically for every public method of the four namespace classes that has a '
                      'same-named method on the delegate class; argument binding follows Python\'s positional/keyword rules.'},
 }
+
+GEN = 'contract-based deductive verification (symbolic execution of the real AST against sidecar contracts, VCs discharged by z3/cvc5)'
+CLAIMED.update({
+    'C03': {'text': 'Unbounded proof over all membership states: a representation invariant of the room tables (bidict consistency, members are '
+                    'connected with one transport id, ids issued) and, per manager operation, a postcondition over the abstract view '
+                    'member(ns, room, sid) written from the statement; the emit recipient loops (threaded and asyncio, with and without '
+                    'callback) carry an inductive invariant "exactly once to every addressed, not skipped member, nothing to anyone else"; '
+                    'get_rooms/get_participants/close_room/disconnect loops likewise. History claims follow by induction on the operations.',
+            'design_ref': '8.3', 'technique': GEN,
+            'note': TB + 'bidict 0.24 item assignment/deletion semantics assumed; engine.io send_packet queues one frame; rooms are hashable non-sequence '
+                         'names or non-empty lists of them; single-host managers.'},
+    'C04': {'text': 'Unbounded proof of the sequential lifecycle: _handle_connect (admission, handler invoked once with the auth payload, CONNECT / '
+                    'CONNECT_ERROR / always_connect variants, no membership retained on refusal, fresh session id), _handle_disconnect, disconnect(), '
+                    '_handle_eio_disconnect (every namespace of the transport) and the manager operations they use, each against postconditions '
+                    'written from the statement, including the exits on which an application handler raises.',
+            'design_ref': '8.4', 'technique': GEN,
+            'note': TB + 'engine.io generate_id returns a never-used id; handlers do not re-enter the server (H0); the asyncio interleaving clause is decided '
+                         'by the gate obligations of C20/C04-async where present; one known finding (remaining namespaces skipped when a disconnect handler raises).'},
+    'C05': {'text': 'Unbounded proof: _handle_eio_message hands each frame exactly once to the handler its decoded type selects (binary packets '
+                    'reassembled per transport), _handle_event dispatches exactly once for a connected client and not at all otherwise, '
+                    '_handle_event_internal sends exactly one ACK with the id, namespace and packed return value to the sender only; for all '
+                    'registries, ids and payloads (symbolic).', 'design_ref': '8.5', 'technique': GEN,
+            'note': TB + 'background tasks run their target exactly once (modelled inline); Packet methods are used through the summaries proved in the codec world.'},
+    'C06': {'text': 'Unbounded proof: _generate_ack_id issues an id unique among the client\'s outstanding callbacks, emit registers one per '
+                    'recipient, trigger_callback/_handle_ack invoke the callback exactly once with the acknowledged arguments only for an '
+                    'outstanding id of the acknowledging connection and otherwise change nothing, basic_disconnect drops outstanding callbacks.',
+            'design_ref': '8.6', 'technique': GEN, 'note': TB + 'call() (Event wait) not yet under contract; ids are values off the wire (never the private counter sentinel).'},
+    'C08': {'text': 'Unbounded proof of the per-packet bookkeeping so far under contract: _handle_connect (first/repeated acceptance), '
+                    '_handle_disconnect (handler once, namespace forgotten, connected flag), emit namespace guard. One known finding (DISCONNECT for a '
+                    'namespace that is not connected runs the handler).', 'design_ref': '8.8', 'technique': GEN,
+            'note': TB + 'connect() wait loop, _handle_error, _handle_eio_connect/_disconnect are not under contract yet; engine.io client disconnect() contract assumed.'},
+    'C09': {'text': 'Unbounded proof: client _handle_event (one dispatch, exactly one ACK when an id is present), _handle_ack (callback once for an '
+                    'outstanding namespace+id, otherwise no effect), _generate_ack_id (fresh id), emit (packing, id registration, BadNamespaceError), '
+                    '_send_packet (frames in order); threaded and asyncio clients.', 'design_ref': '8.9', 'technique': GEN,
+            'note': TB + 'call() not yet under contract.'},
+    'C11': {'text': 'Unbounded proof that _handle_eio_disconnect leaves no room/namespace membership, callbacks, pending mark, request environment or '
+                    'partially received packet of the transport, on normal exit and when handlers raise (two defects repaired, one recorded); '
+                    '_handle_disconnect/disconnect/basic_disconnect/_handle_connect refusal paths likewise.', 'design_ref': '8.11', 'technique': GEN,
+            'note': TB + '"memory does not grow" is derived from the frame conditions, not measured; quiescent pre-state (no disconnect of the same transport in progress).'},
+    'C12': {'text': 'Unbounded proof of an ownership frame for _handle_eio_message with the decoded fields of the frame ARBITRARY (uninterpreted functions '
+                    'of the frame): nothing is sent to another transport, no other client\'s membership, callbacks or half-received packet changes, '
+                    'handlers run only with the sender\'s session id, the manager invariant is preserved, on normal and exceptional exit; '
+                    'malformed payloads covered by total contracts of the event/ack handlers.', 'design_ref': '8.12', 'technique': GEN,
+            'note': TB + 'engine.io contains exceptions of the message callback; decode totality/size clauses belong to the codec world (not yet claimed); names \'*\' excluded.'},
+    'C16': {'text': 'Unbounded proof: get_session/save_session address exactly the cell (transport of the sid, namespace), return what was saved, '
+                    'create an empty dict otherwise and touch no other cell; injectivity of sid -> (transport, namespace) from the manager invariant. '
+                    'Freshness after a namespace disconnect is a recorded finding.', 'design_ref': '8.16', 'technique': GEN,
+            'note': TB + 'engine.io get_session returns one dict per live connection; session() context manager not yet under contract.'},
+})
